@@ -27,9 +27,12 @@ def main():
     c.prove(gen=[])
     copies_identical(c)
     c.correspond("sss")
+    c.correspond("dkgstep")
     return c.finish(
         rule="both copies (mpc/bls, mpc/ps): chooseKoutOfN for all n <= 10 (16 thorough), k <= n+1; lagrangeCoefficient for every subset S of {1..n}, n <= 6 (9), every i in S incl. the panicking singletons; "
              "ValueAt for every share of PRNG-dealt polynomials (real SSS.Gen with a recorded random stream) for all 2 <= t <= n; reconstruct for all subsets of size >= 2 (sampled after the first polynomial). "
              "Scalars compared as decimal strings modulo the real BN254 order. Group level on the real curve: aggregated public keys of every subset of size >= t equal GenG2*secret; "
+             "The cross-check inside the real KeyGen (assembleThresholdPublicKey of both backends, statements pinned) is exercised by the lockstep component dkgstep: fault-free runs with party identifiers 1..n, "
+             "from the corners of the 16-bit range and in permuted order must be accepted; a run whose only deviation is one share off its dealer's polynomial (t < n) must be rejected. "
              "t-subset cross-check accepts on-polynomial keys and detects an off-polynomial key for every party index (t < n). Non-trivial = distinct operation lines except degenerate choose(n,k) with k outside 1..n.",
         trusted=TRUSTED, assumptions=ASSUME)
